@@ -28,7 +28,7 @@ from inscripta.biocantor.gene.interval import QualifierValue, IntervalType, Abst
 from inscripta.biocantor.gene.transcript import TranscriptInterval
 from inscripta.biocantor.gene.variants import VariantIntervalCollection, VariantInterval
 from inscripta.biocantor.io.gff3.rows import GFFRow
-from inscripta.biocantor.location import SingleInterval, EmptyLocation, Strand
+from inscripta.biocantor.location import Location, SingleInterval, EmptyLocation, Strand
 from inscripta.biocantor.parent import Parent, SequenceType
 from inscripta.biocantor.sequence import Alphabet
 from inscripta.biocantor.util.bins import bins
@@ -135,8 +135,9 @@ class AnnotationCollection(AbstractFeatureIntervalCollection):
                 end = max(f.end for f in self.iter_children())
 
         if start is None and end is None:
-            # if we still have nothing, we are empty
+            # if we still have nothing, we are empty and have no bounds
             self._location = EmptyLocation()
+            self.start = self.end = self.bin = None
         else:
             self._initialize_location(start, end, parent_or_seq_chunk_parent)
             self.start = start
@@ -234,6 +235,14 @@ class AnnotationCollection(AbstractFeatureIntervalCollection):
     def is_empty(self) -> bool:
         """Is this an empty collection?"""
         return len(self) == 0
+
+    @lru_cache(maxsize=1)
+    @property
+    def chromosome_location(self) -> Location:
+        """Returns the Location of this in *chromosome coordinates*; an empty collection without bounds has none."""
+        if self.start is None:
+            return EmptyLocation()
+        return super().chromosome_location
 
     @property
     def children_guids(self) -> set:
@@ -612,6 +621,8 @@ class AnnotationCollection(AbstractFeatureIntervalCollection):
             bounds of the current interval. It could also happen if ``expand_location_to_children`` is ``True``
             and the new expanded range would exceed the range of an associated sequence chunk.
         """
+        if self.start is None:
+            raise InvalidQueryError("Cannot query by position on an empty collection that has no bounds")
         # after bins were decided, we can now force start/end to min/max values
         # for exact checking
         start = self.start if start is None else start
